@@ -183,13 +183,19 @@ for n in (0, 1, 3):
     con.cases.append(c)
 
 
-def inst_write_spec(n_generic, n_port):
+def inst_write_spec(n_generic, n_port, arch=("compiled", "arch_E", "arch_E")):
+    kind, declared, written = arch
+    # the architecture named in an instantiation is the one that is WRITTEN for the entity: the scope may have changed a
+    # requested name that is reserved or taken (`arch_name="signal"` -> `architecture signal1 of E`); an extern entity is
+    # instantiated with the name the user gave (or without architecture)
+    arch_text = written if kind == "compiled" else declared
+
     def spec(sx, self):
         def holds(res):
             lines = _flat_text(res)
             if not lines or not all(isinstance(l, str) for l in lines):
                 return False
-            head = "comp_e: entity work.E(arch_E)"
+            head = "comp_e: entity work.E" + ("" if arch_text is None else f"({arch_text})")
             want = [head] + (["generic map("] + [f"g{i}" for i in range(n_generic)] + [")"] if n_generic else []) + (["port map("] + [f"p{i}" for i in range(n_port)] + [");"] if n_port else [])
             if n_generic and not n_port:
                 want[-1] = ");"
@@ -203,27 +209,63 @@ def inst_write_spec(n_generic, n_port):
     return spec
 
 
-def _inst_shape(n_generic, n_port):
+def _inst_shape(n_generic, n_port, arch=("compiled", "arch_E", "arch_E")):
+    kind, declared, written = arch
+
     def make(env):
-        ent = SObj(VR.Entity, _name="E", _arch_name="arch_E", _path="work", _ports={f"p{i}": object() for i in range(n_port)}, _generics={})
+        ent = SObj(VR.Entity, _name="E", _arch_name=declared, _path="work", _ports={f"p{i}": object() for i in range(n_port)}, _generics={}, _extern=kind == "extern",
+                   _arch=None if kind == "extern" else SObj(VR.Architecture, f_written=written))
         return SObj(VR.EntityInst, _entity=ent, _ports={f"p{i}": object() for i in range(n_port)}, _generics={}, _scope=SObj(VhdlScope), f_g=n_generic, f_p=n_port)
 
     return Built([], make, lambda a: "None", lambda a: None)
 
 
-I.register_inline(VR.Entity.__dict__["ports"])
+for _m in ("ports", "extern", "architecture"):
+    I.register_inline(VR.Entity.__dict__[_m])
+I.register_inline(VR.EntityInst.__dict__["extern"])
+ARCH_VARIANTS = [("compiled", "arch_E", "arch_E"), ("compiled", "signal", "signal1"), ("compiled", "arch_E", "arch_E1"), ("extern", "rtl", None), ("extern", None, None)]
 con = contract(VRM + "EntityInst.write", PROPS)
-for n_generic, n_port in ((0, 0), (0, 2), (0, 1)):
-    c = Case(f"{n_generic}-generics,{n_port}-ports", [_inst_shape(n_generic, n_port)], inst_write_spec(n_generic, n_port))
+for n_generic, n_port, arch in [(0, 0, ARCH_VARIANTS[0]), (0, 2, ARCH_VARIANTS[0]), (0, 1, ARCH_VARIANTS[0])] + [(0, 1, a) for a in ARCH_VARIANTS[1:]]:
+    c = Case(f"{n_generic}-generics,{n_port}-ports" + ("" if arch is ARCH_VARIANTS[0] else f",{arch[0]}-entity,arch_name={arch[1]},written-as-{arch[2]}"), [_inst_shape(n_generic, n_port, arch)], inst_write_spec(n_generic, n_port, arch))
     c.native = False
     c.models = [
+        (VR.Architecture.__dict__["arch_name"], lambda it, self: self.fields["f_written"]),
         (VR.EntityInst.__dict__["_generic_map"], lambda it, self: []),
         (VR.EntityInst.__dict__["_port_map"], lambda it, self: (["port map("] + [f"p{i}" for i in range(self.fields["f_p"])] + [");"]) if self.fields["f_p"] else []),
         (VhdlScope.__dict__["format_value"], lambda it, self, obj, *a, **k: "<actual>"),
         (VhdlScope.__dict__["lookup_name"], lambda it, self, obj: "comp_e"),
     ]
-    c.custom_replay = "contracts.c06_text.replay_no_ports"
+    c.custom_replay = "contracts.c06_text.replay_no_ports" if arch is ARCH_VARIANTS[0] else "contracts.c06_text.replay_arch_name"
     con.cases.append(c)
+
+
+_ARCH_NAME_DESIGN = '''
+import re
+from cohdl import Entity, Port, Bit, std
+class Sub(Entity, attributes={"arch_name": "signal"}):      # a reserved word: the architecture body gets another name
+    i = Port.input(Bit)
+    q = Port.output(Bit)
+    def architecture(self):
+        @std.concurrent
+        def logic():
+            self.q <<= self.i
+class Top(Entity):
+    a = Port.input(Bit)
+    o = Port.output(Bit)
+    def architecture(self):
+        Sub(i=self.a, q=self.o)
+t = std.VhdlCompiler.to_string(Top)
+written = re.search(r"architecture (\\w+) of Sub", t).group(1)
+used = re.search(r"entity work\\.Sub\\((\\w+)\\)", t).group(1)
+print("MISMATCH" if written != used else "MATCH", written, used)
+'''
+
+
+def replay_arch_name(payload):
+    from contracts.c06_extra import _run_design
+
+    rc, out = _run_design(_ARCH_NAME_DESIGN)
+    return {"reproduced": rc == 0 and "MISMATCH" in out, "detail": out[-200:]}
 
 
 _NO_PORTS_DESIGN = '''
